@@ -398,5 +398,6 @@ pub fn run(opts: &Opts) -> Report {
             }
         } else { rep.fail("oracle", "reference-from-another-resource/build", vec![], "a store", "failed"); }
     }
+    crate::fam::related_crafted::run_all(&mut rep);
     rep
 }
